@@ -453,11 +453,12 @@ func runCheck(chk *Check, tier, replay string, keep bool, only string) int {
 		}
 		wg.Wait()
 	}
+	infraErr := false
 	for i, e := range errs {
 		if e != nil {
 			fmt.Fprintf(os.Stderr, "ERROR property=%s: %v\n", chk.ID, e)
-			_ = i
-			return 2
+			infraErr = true
+			results[i] = &Result{Property: chk.ID, Exhaustive: false, Caps: []string{"a shard ended without a result: " + strings.SplitN(e.Error(), "\n", 2)[0]}}
 		}
 	}
 
@@ -540,6 +541,10 @@ func runCheck(chk *Check, tier, replay string, keep bool, only string) int {
 		fmt.Println(l)
 	}
 
+	if infraErr && rc == 0 {
+		// no violation was found and part of the exploration is missing: neither held nor violated
+		return 2
+	}
 	writeEvidence(chk, tier, seed, &merged, unitSummaries, nviol, knownLines, time.Since(t0).Seconds())
 	fmt.Printf("check %s tier=%s: evaluations=%d states=%d transitions=%d exhaustive=%v violations=%d known=%d wall=%.1fs\n",
 		chk.ID, tier, merged.Evaluations, merged.States, merged.Transitions, merged.Exhaustive, nviol, len(knownLines), time.Since(t0).Seconds())
